@@ -5,7 +5,7 @@ import Sessions.Model.Session
 
 **What is translated.** `/verif/extract/ir.go` re-reads /repo on every run and translates the bodies of
 `Session.RegenerateID`, `Session.Destroy`, `cache.Set`, `cache.Delete`, `cache.Get`, `Session.Set`, `Session.Delete`,
-`Session.LogOut`, `Session.GetAndDelete` (and `Session.LogIn`) into `Facts.ir_<Name> : Ir.Fn` (grammar: `Sessions/Ir/Syntax.lean`).
+`Session.LogOut`, `Session.GetAndDelete`, `Session.Get`, `Session.LogIn` into `Facts.ir_<Name> : Ir.Fn` (grammar: `Sessions/Ir/Syntax.lean`).
 The translation is generic (statement by statement, expression by expression); the only things it abstracts are the texts of
 error messages (`fmt.Errorf`/`errors.New` with identifier/literal arguments become `mkErr`, a non-nil error) and the
 names of locals (shadowing declarations are renamed apart). Anything outside the subset becomes `unk`, on which the
@@ -15,7 +15,7 @@ interpreter below gets stuck, so that no equivalence theorem can be proved about
 on the tree) giving that statement tree its Go meaning over the state `Sx.State` of the hand-written model:
 * locals live in an environment (`M.env`); a `*Session` is a handle into `State.heap` (`V.ptr`); reading/writing a field of
   a session is `State.obj`/`State.setObj`; a session-id string is an `Sx.ID` (`V.id`), the empty string in `referenceID` is
-  `none` as in `Sess.ref`; `time.Now()` is `State.now`; the package variables are the fields of `Sx.Cfg`;
+  `none` as in `Sess.ref`; `time.Now()` is `State.now`, `time.Since(t)` is `Sx.since now t`; the package variables are the fields of `Sx.Cfg`;
   `c.sessions` is `State.cache` (`m[k]` = `Sx.lookup`, `m[k] = v` = `Sx.insert`, `delete` = `Sx.erase`), `s.data` the `data`
   field (`nil` map = `none`: assignment panics, reading and `delete` do not);
 * control flow (`if` with init, `return`, sequencing, short-circuit `&&`/`||`), tuple assignment, comma-ok, composite
@@ -27,7 +27,7 @@ on the tree) giving that statement tree its Go meaning over the state `Sx.State`
 the model's primitives, in call order, with their events appended in that order:
 `sessions.Set(x)` ↦ `Sx.cacheSet`, `sessions.Get` ↦ `Sx.cacheGet`, `sessions.Delete` ↦ `Sx.cacheDelete`,
 `c.compact(n)` ↦ `Sx.compact`, `Persistence.SaveSession(id, x)` ↦ `Sx.saveRec` of the object as it is at the time of the call,
-`Persistence.LoadSession` ↦ `Sx.loadRec` (a found object is allocated on the heap), `Persistence.DeleteSession` ↦ `Sx.delRec`,
+`Persistence.LoadSession` ↦ `Sx.loadRec` (a found object is allocated on the heap, its `id` field still empty), `Persistence.DeleteSession` ↦ `Sx.delRec`,
 `generateSessionID()` ↦ `ID.gen nextId` (never fails; `nextId` incremented), `NewSessionCookie()` + `cookie.Name = SessionCookie` +
 `cookie.Value = id` + `http.SetCookie(response, cookie)` ↦ `Ev.setCookie id`, `request.Cookie(SessionCookie)` ↦ the request's cookie
 (absent: `http.ErrNoCookie`), `deleteCookie(cookie, response)` ↦ `Ev.delCookie` (nil cookie: panic),
@@ -36,11 +36,18 @@ the model's primitives, in call order, with their events appended in that order:
 `FactsIrCache`, so for `sessions.Set/Get/Delete` the seam is closed one level down: what remains trusted there is `compact`
 and the three persistence calls.) Also trusted: that a `*http.Cookie` held in a local is not aliased (copying one is stuck).
 
-**What the theorems say** (`Sessions/FactsIr*.lean`): for ALL configurations, states and arguments,
+**What the theorems say** (`Sessions/FactsIr{Regen,Cache,Handlers,Login}.lean`, rebuilt on every run against the regenerated
+trees): for ALL configurations, states (including both oracles) and arguments,
 `Ir.exec cfg Facts.ir_RegenerateID s [.ptr (some h), .opaque] = Ir.ofErr (Sx.regenerate cfg s h)` — running the code the repository
 contains now yields exactly the model's state, the model's success flag (as a nil/non-nil error) and the model's events in
-order; likewise for the other functions. So every theorem proved about `Sx.regenerate`, `Sx.cacheSet`, … is a theorem about the
-translated code, modulo the seam above. Integers are unbounded (`time.Duration`/`int` are 64-bit in Go; see `Cond/Expr.lean`).
+order; likewise `Destroy` = `Sx.destroy`, `cache.Set/Delete/Get` = `Sx.cacheSet/cacheDelete/cacheGet`, `Session.Set/Delete/LogOut/
+GetAndDelete` = `Sx.hset/hdel/hlogout/hgetdel`, `Session.LogIn` = `Sx.hlogin`, `Session.Get` = `Sx.hget`. The only hypotheses are structural: the handle is
+valid (`h < s.heap.length`) where fields of the object are written, and for `cache.Get` the cached handles are valid. So every
+theorem proved about `Sx.regenerate`, `Sx.cacheSet`, … is a theorem about the translated code, modulo the seam above. The proofs are
+`simp` evaluations of the interpreter on the concrete tree (`ir_tac`, `Sessions/Ir/Lemmas.lean`) followed by case splits: a renamed
+local, a reworded message, `if err := f(); err != nil` against two statements, reordered independent statements still check; a
+changed order of calls, a different operand, a dropped `return`/statement, a loop, do not. Integers are unbounded
+(`time.Duration`/`int` are 64-bit in Go; see `Cond/Expr.lean`).
 -/
 namespace Ir
 open Sx
@@ -294,6 +301,10 @@ def prim (cfg : Cfg) (le : ID → ID → Bool) (c : Callee) (vs : List V) (m : M
       (match vs with
        | [] => k [.time m.st.now] m
        | _ => m.stuck "time.Now")
+    else if p = "time" ∧ x = "Since" then
+      (match vs with
+       | [.time t] => k [.int (since m.st.now t)] m
+       | _ => m.stuck "time.Since")
     else if p = "http" ∧ x = "SetCookie" then
       (match vs with
        | [.opaque, .cookie (some ck)] =>
@@ -350,7 +361,9 @@ def prim (cfg : Cfg) (le : ID → ID → Bool) (c : Callee) (vs : List V) (m : M
            (match loadRec m.st i with
             | (s0, .fail, e0) => k [.ptr none, .err true] ((m.withSt s0).emit e0)
             | (s0, .nil, e0) => k [.ptr none, .err false] ((m.withSt s0).emit e0)
-            | (s0, .found o, e0) => k [.ptr (some (s0.alloc o).1), .err false] ((m.withSt (s0.alloc o).2).emit e0))
+            | (s0, .found o, e0) =>
+              -- the id is not part of a stored record: the decoded object does not carry it yet
+              k [.ptr (some (s0.alloc { o with id := .lit "" }).1), .err false] ((m.withSt (s0.alloc { o with id := .lit "" }).2).emit e0))
          | _ => m.stuck "LoadSession")
       else m.stuck ("Persistence." ++ name)
     | .req c =>
